@@ -108,6 +108,9 @@ def Body.eval (b : Body) (args : List Val) : Outcome :=
   | .failIf k t => match args.head? with
     | some (.int i) => if i == k then .raise (.user t) else .val (Val.mkTup (.str t :: args))
     | _ => .val (Val.mkTup (.str t :: args))
+  | .failGe k t => match args.head? with
+    | some (.int i) => if i ≥ k then .raise (.user (t ++ toString i)) else .val (Val.mkTup (.str t :: args))
+    | _ => .val (Val.mkTup (.str t :: args))
   | .nonBool => .val (.int 1)
   | .wrongArity t k => .val (Val.mkTup ((List.range k).map fun i => Val.mkTup [.str t, .int (Int.ofNat i)]))
   | .handler k => match k with
